@@ -54,6 +54,9 @@ def mk_op(o):
         return ops.MeasureHeterodyne(**kw)
     if name in ("Del", "New"):
         return None
+    if name == "Kgate":
+        op = ops.Kgate(float(fr(p[0])))
+        return op.H if o.get("dag") else op
     args = [to_float(k, v) for k, v in zip(kinds, p)]
     op = getattr(ops, name)(*args)
     if o.get("dag"):
